@@ -672,6 +672,17 @@ class Executor:
         f = self.prog.fn(fname)
         if self.auto_static:
             self.inline = set(self.inline_given) | static_callees(self.prog, self.eff, fname)
+            # ... and the unit-internal helpers of every routine the caller asked to have inlined
+            work = [g for g in self.inline if g in self.prog.funcs]
+            seen_ = set(work)
+            while work:
+                g = work.pop()
+                for h in static_callees(self.prog, self.eff, g):
+                    if h not in self.inline:
+                        self.inline.add(h)
+                    if h not in seen_:
+                        seen_.add(h)
+                        work.append(h)
         if arg_terms is None:
             arg_terms = [("arg", i) for i in range(len(f.params))]
         st = State()
@@ -682,6 +693,7 @@ class Executor:
             init(st)
         self.npaths = 0
         out = []
+        self._root_fn = f if arg_terms == [("arg", i) for i in range(len(f.params))] or arg_terms is None else None
         for st2, ret in self.exec_fn(f, arg_terms, st, 0):
             out.append(Path(st2, ret))
         return out
@@ -970,6 +982,8 @@ class Executor:
             return t[2]
         if t[0] == "call" and t[1] in self.prog.funcs:
             return self.prog.funcs[t[1]].ret_type
+        if t[0] == "arg" and getattr(self, "_root_fn", None) is not None and t[1] < len(self._root_fn.params):
+            return self._root_fn.params[t[1]]["type"]     # a parameter of the function under analysis
         return None
 
     # ---- calls that are not inlined ----
@@ -1078,6 +1092,15 @@ class Executor:
                 if callee in ("memcpy", "memmove"):
                     n = actuals[2][1] if is_const(actuals[2]) else None
                     st.memcpy(actuals[0], actuals[1], n)
+                    res_t = actuals[0]
+                    ev.res = res_t
+                    ev.callee = "memcpy"     # memmove is memcpy that also tolerates overlap: one name for the rules
+                elif callee == "memset" and len(actuals) >= 3:
+                    n = actuals[2][1] if is_const(actuals[2]) else None
+                    v_ = actuals[1]
+                    while isinstance(v_, tuple) and v_[0] == "cast":
+                        v_ = v_[3]
+                    st.memset(actuals[0], v_, n)
                     res_t = actuals[0]
                     ev.res = res_t
                 else:
